@@ -61,6 +61,13 @@ def _prim_scenario(prim, two):
         S.ensure("original-domain-unchanged", frame.diff(before, frame.snap(h.dom)) is None)
         S.ensure("new-object-of-the-same-class", d2 is not h.dom and d2.cls is h.dom.cls)
         S.ensure("fixed-variable-no-longer-needed", set(S.getattr(d2, "necessary_variables")) == set(args_of) - {"t"})
+        # history: a SECOND partial evaluation of the same domain at another value -- the first evaluated domain (all
+        # obligations below are stated about it AFTER this step) and the original stay what they were
+        snap_d2 = frame.snap(d2)
+        T1 = S.tensor("T1", [1, 1])
+        d3 = S.call(h.dom, t=T1)
+        S.ensure("a-second-partial-evaluation-leaves-the-first-one-unchanged", d3 is not d2 and frame.diff(snap_d2, frame.snap(d2)) is None)
+        S.ensure("original-domain-unchanged-by-the-second-evaluation", frame.diff(before, frame.snap(h.dom)) is None)
         N = S.int("N", 1)
         X = S.tensor("X", [N, prim.dim])
         pts = S.new(POINTS, X, S.new(prim.space, "x"))
